@@ -98,6 +98,15 @@ def build(tier, seed):
             if 'range' in feats and 'iter' not in feats:
                 feats.append('iter')
             add(d, D.config(feats), kind='pair', classes=[a + '+' + b])
+    if tier == 'thorough':
+        # every triple of features (3-wise covering of the dependency propagation), gapless and holes
+        for r, label, vals in [('i8', 'holes_neg_later', [-10, -9, -5, -4, 3]), ('u16', 'gapless_pos', [5, 6, 7])]:
+            d = D.make_decl(r, label, vals, 'asc', 'explicit', 'default', rnd, vis='pub')
+            for tr in _it2.combinations(D.ALL_FEATURES, 3):
+                feats = list(tr)
+                if 'range' in feats and 'iter' not in feats:
+                    feats.append('iter')
+                add(d, D.config(feats), kind='triple', classes=['+'.join(tr)])
     # name / vis / struct_name parameters
     for r, label, vals in [('i16', 'holes2', [0, 1, 9]), ('u8', 'gapless0', [0, 1, 2, 3])]:
         for evis in ['pub', 'pub(crate)', '', 'pub(super)', 'pub(in crate::MOD)']:
@@ -180,6 +189,30 @@ def build(tier, seed):
                 c = mk(d['gapless']); c = dict(c); c['split'] = k
                 members.append(('split=%d' % k, d, c))
             family('split', members)
+    # non-interference families (C09): one feature with a fixed explicit mode, alone and next to every other feature and in
+    # the full set - its own items must expand to the same tokens in every member
+    NI = [('as_str', 'match'), ('as_str', 'table'), ('from_str', 'match'), ('from_str', 'table'), ('FromStr', 'match'), ('FromStr', 'table'),
+          ('iter', 'range'), ('iter', 'next_and_back'), ('iter', 'table'), ('iter', 'table_inline'), ('try_from', None), ('TryFrom', None),
+          ('next', None), ('next_back', None), ('names', None), ('into', None), ('Debug', None), ('MIN', None)]
+    for r, label, vals in [('i16', 'holes_neg_later', [-10, -9, -5, -4, 3]), ('u8', 'gapless0', [0, 1, 2, 3])]:
+        d = D.make_decl(r, label, vals, 'shuf', 'explicit', 'hostile', rnd, vis='pub')
+        for f, m in NI:
+            members = []
+            others = [o for o in D.ALL_FEATURES if o != f]
+            if tier == 'quick':
+                others = others[::3]
+            sets = [[f]] + [[f, o] for o in others] + [list(D.ALL_FEATURES)]
+            for fs in sets:
+                fs = list(fs)
+                if 'range' in fs and 'iter' not in fs:
+                    fs.append('iter')
+                if 'range' in fs and f == 'iter' and m == 'table_inline':
+                    fs = [x for x in fs if x != 'range']
+                modes = {f: m} if m else {}
+                # other moded features get explicit modes too in the full set so that only co-presence varies
+                c = D.config(fs, modes, split=1)
+                members.append(('with=%s' % '+'.join(x for x in fs if x != f), d, c))
+            family('noninterf:%s:%s' % (f, m), members)
     if tier == 'thorough':
         # the size limit: 65 534 variants with every feature in table / cursor modes (match modes would only repeat 65 534 arms)
         hv = list(range(0, 65534))
